@@ -142,7 +142,13 @@ impl<'a, F> Entries<'a, F> {
         let mut entries = Entries { order, minialloc, stack: Vec::new() };
         match order {
             EntriesOrder::Nonrecursive => {
-                entries.stack_left_spine(&parent_path, start);
+                let minialloc = minialloc.read().unwrap();
+                stack_left_spine(
+                    &mut entries.stack,
+                    &minialloc,
+                    &parent_path,
+                    start,
+                );
             }
             EntriesOrder::Preorder => {
                 entries.stack.push((parent_path, start, false));
@@ -150,13 +156,19 @@ impl<'a, F> Entries<'a, F> {
         }
         entries
     }
+}
 
-    fn stack_left_spine(&mut self, parent_path: &Path, mut current_id: u32) {
-        let minialloc = self.minialloc.read().unwrap();
-        while current_id != consts::NO_STREAM {
-            self.stack.push((parent_path.to_path_buf(), current_id, true));
-            current_id = minialloc.dir_entry(current_id).left_sibling;
-        }
+// The caller must already hold the lock: acquiring it a second time on the
+// same thread can deadlock when a writer is waiting in between.
+fn stack_left_spine<F>(
+    stack: &mut Vec<(PathBuf, u32, bool)>,
+    minialloc: &MiniAllocator<F>,
+    parent_path: &Path,
+    mut current_id: u32,
+) {
+    while current_id != consts::NO_STREAM {
+        stack.push((parent_path.to_path_buf(), current_id, true));
+        current_id = minialloc.dir_entry(current_id).left_sibling;
     }
 }
 
@@ -169,13 +181,23 @@ impl<'a, F> Iterator for Entries<'a, F> {
             let dir_entry = minialloc.dir_entry(stream_id);
             let path = join_path(&parent, dir_entry);
             if visit_siblings {
-                self.stack_left_spine(&parent, dir_entry.right_sibling);
+                stack_left_spine(
+                    &mut self.stack,
+                    &minialloc,
+                    &parent,
+                    dir_entry.right_sibling,
+                );
             }
             if self.order == EntriesOrder::Preorder
                 && dir_entry.obj_type != ObjType::Stream
                 && dir_entry.child != consts::NO_STREAM
             {
-                self.stack_left_spine(&path, dir_entry.child);
+                stack_left_spine(
+                    &mut self.stack,
+                    &minialloc,
+                    &path,
+                    dir_entry.child,
+                );
             }
             Some(Entry::new(dir_entry, path))
         } else {
